@@ -569,6 +569,8 @@ func (r *FnRun) evalQuant(x SQuant, env *specEnv) Val {
 			s = SBV(64)
 		case "bv32":
 			s = SBV(32)
+		case "u64", "u32", "u16", "u8":
+			s = r.ms(Sort("@" + x.Types[i]))
 		default:
 			sfail("unknown quantifier type %q", x.Types[i])
 		}
@@ -741,6 +743,7 @@ func (r *FnRun) evalCall(x SCall, env *specEnv) Val {
 		n := env.with(vars)
 		n.useCells = false
 		n.fr = nil
+		n.bound = nil // the body sees its parameters only (no capture of the caller's bound variables)
 		return r.evalSpec(p.Body, n)
 	}
 	if g, ok := r.e.cs.Ghosts[x.Fun]; ok {
@@ -751,21 +754,22 @@ func (r *FnRun) evalCall(x SCall, env *specEnv) Val {
 		return t
 	}
 	if u, ok := r.e.cs.UFuncs[x.Fun]; ok {
-		r.declareFun("uf_"+u.Name, u.Args, u.Res)
+		as := r.msl(u.Args)
+		r.declareFun("uf_"+u.Name, as, r.ms(u.Res))
 		var ts []Term
 		for i, a := range args() {
 			t := r.argTerm(a, env)
-			if i < len(u.Args) && u.Args[i].IsBV() && t.Sort == SInt {
+			if i < len(as) && as[i].IsBV() && t.Sort == SInt {
 				if n, ok := isLit(t); ok {
-					t = BVLit(n, u.Args[i].BVWidth())
+					t = BVLit(n, as[i].BVWidth())
 				}
 			}
 			ts = append(ts, t)
 		}
 		if len(ts) == 0 {
-			return Term{"uf_" + u.Name, u.Res}
+			return Term{"uf_" + u.Name, r.ms(u.Res)}
 		}
-		return App("uf_"+u.Name, u.Res, ts...)
+		return App("uf_"+u.Name, r.ms(u.Res), ts...)
 	}
 	sfail("%s: unknown function %q in specification", env.what, x.Fun)
 	return nil
@@ -808,6 +812,7 @@ func (r *FnRun) obligeClause(kind, label string, e SExpr, env *specEnv, st *Stat
 				n := env.with(vars)
 				n.useCells = false
 				n.fr = nil
+				n.bound = nil
 				flat(p.Body, n, tag+x.Fun+".")
 				return
 			}
@@ -822,4 +827,25 @@ func (r *FnRun) obligeClause(kind, label string, e SExpr, env *specEnv, st *Stat
 	for i, p := range parts {
 		r.oblige(kind, fmt.Sprintf("%s/%s%d", label, p.tag, i), r.evalBool(p.e, p.env), st)
 	}
+}
+
+// ms resolves the mode-dependent machine-integer sorts "@u64" etc.
+func (r *FnRun) ms(s Sort) Sort {
+	if strings.HasPrefix(string(s), "@u") {
+		if r.bv {
+			var n int
+			fmt.Sscanf(string(s), "@u%d", &n)
+			return SBV(n)
+		}
+		return SInt
+	}
+	return s
+}
+
+func (r *FnRun) msl(ss []Sort) []Sort {
+	out := make([]Sort, len(ss))
+	for i, s := range ss {
+		out[i] = r.ms(s)
+	}
+	return out
 }
